@@ -363,16 +363,32 @@ def _raw(cls, name, kind, service_refs, gnrs, parent_refs, extra, comparam_refs=
 
 
 class Gnr:
-    """a global negative response as inheritance sees it"""
+    """a global negative response (or a unit group) as inheritance sees it"""
 
     def __init__(self, name):
         self.short_name = name
+
+    def _build_odxlinks(self):
+        return {}
 
     def _resolve_odxlinks(self, odxlinks):
         pass
 
     def _resolve_snrefs(self, context):
         pass
+
+
+def _ddds_with_unit_groups(names):
+    from odxtools.diagdatadictionaryspec import DiagDataDictionarySpec
+    from odxtools.unitspec import UnitSpec
+    us = UnitSpec(unit_groups=NamedItemList([Gnr(n) for n in names]), units=NamedItemList(),
+                  physical_dimensions=NamedItemList(), admin_data=None, sdgs=[])
+    return DiagDataDictionarySpec(admin_data=None, data_object_props=NamedItemList(), dtc_dops=NamedItemList(),
+                                  structures=NamedItemList(), static_fields=NamedItemList(),
+                                  end_of_pdu_fields=NamedItemList(), dynamic_endmarker_fields=NamedItemList(),
+                                  dynamic_length_fields=NamedItemList(), tables=NamedItemList(),
+                                  env_data_descs=NamedItemList(), env_datas=NamedItemList(), muxs=NamedItemList(),
+                                  unit_spec=us, sdgs=[])
 
 
 def _pref(parent_name, not_inherited_services, not_inherited_gnrs):
@@ -412,6 +428,9 @@ def real_raw_layers_through_two_refreshes(rounds):
                          ["gnr_pr"] if excl_gnr else [])],
                   {"diag_variables_raw": [], "variable_groups": NamedItemList(), "dyn_defined_spec": None,
                    "base_variant_pattern": None})
+    # unit groups: defined by the protocol and by the base variant, none by the functional group in between
+    pr_raw.diag_data_dictionary_spec = _ddds_with_unit_groups(["ug_pr"])
+    bv_raw.diag_data_dictionary_spec = _ddds_with_unit_groups(["ug_bv"])
     layers = {}
     for name, raw in (("pr", pr_raw), ("fg", fg_raw), ("bv", bv_raw)):
         L = HierarchyElement.__new__(HierarchyElement)
@@ -443,6 +462,10 @@ def real_raw_layers_through_two_refreshes(rounds):
                     sorted([x.short_name for x in L.diag_services]) == sorted(want[name][0]))
             H.check("C09:global-negative-responses-of-every-layer-are-those-the-rule-prescribes-after-every-refresh",
                     sorted([x.short_name for x in L.global_negative_responses]) == sorted(want[name][1]))
+            us = L.diag_data_dictionary_spec.unit_spec
+            H.check("C09:unit-groups-of-every-layer-are-its-own-plus-all-inherited-ones",
+                    sorted([] if us is None else [x.short_name for x in us.unit_groups]) ==
+                    (["ug_bv", "ug_pr"] if name == "bv" else ["ug_pr"]))
 
 
 # =============================================================================================================== C15
@@ -767,3 +790,79 @@ def comparam_refs_resolve_per_document_fragment(order):
             H.And(ci_can.spec is spec_can, ci_doip.spec is spec_doip))
     H.check("C15:omitted-values-fall-back-to-the-default-of-that-specification",
             H.And(ci_can.get_value() == "2000000", ci_doip.get_value() == "3000000"))
+
+
+# the frame-size accessor decides per protocol whether the bus is CAN
+@harness(props=["C15"], strength="B", family=lambda t, s: [{"order": o, "fd_length": f} for o in ("can-first", "doip-first")
+                                                           for f in (None, "TX_DL = 12", "TX_DL=64")],
+         bound="a layer seeing one response-id table per protocol (CAN and DoIP), with or without CP_CANFDTxMaxDataLength",
+         functions=[HierarchyElement.get_max_can_payload_size, HierarchyElement.get_can_receive_id,
+                    HierarchyElement.get_comparam], covers=["done"], crosscheck=False)
+def frame_size_per_protocol(order, fd_length):
+    """get_max_can_payload_size(protocol): the CAN-FD length given for that protocol, else 8 if that protocol runs on CAN
+    (it has a CAN receive id), else None - whatever the other protocols of the layer run on"""
+    L = GhostLayer("bv", "BV")
+    can_table = mk_spec("CP_UniqueRespIdTable", None, ComplexComparam)
+    can_table.subparams = NamedItemList([mk_spec("CP_CanPhysReqId", "2016"), mk_spec("CP_CanRespUSDTId", "2024")])
+    doip_table = mk_spec("CP_UniqueRespIdTable", None, ComplexComparam)
+    doip_table.subparams = NamedItemList([mk_spec("CP_DoIPLogicalEcuAddress", "4096")])
+    ci_can = mk_instance(can_table, "ID.can", ["2016", "2024"], "P_CAN")
+    ci_doip = mk_instance(doip_table, "ID.doip", ["4096"], "P_DOIP")
+    refs = [ci_can, ci_doip] if order == "can-first" else [ci_doip, ci_can]
+    if fd_length is not None:
+        refs.append(mk_instance(mk_spec("CP_CANFDTxMaxDataLength", "8"), "ID.fd", fd_length, "P_CAN"))
+    L._comparam_refs = NamedItemList(refs)
+    with warnings.catch_warnings():
+        warnings.simplefilter("ignore")
+        got_can = L.get_max_can_payload_size(protocol="P_CAN")
+        got_doip = L.get_max_can_payload_size(protocol="P_DOIP")
+    H.cover("done")
+    H.check("C15:frame-size-of-the-can-protocol",
+            got_can == (8 if fd_length is None else int(fd_length.split("=")[1])))
+    H.check("C15:no-can-frame-size-for-a-protocol-that-does-not-run-on-can", got_doip is None)
+
+
+# the identifiers a comparam subset contributes are those of the objects it holds *now*
+from odxtools.comparamsubset import ComparamSubset  # noqa: E402
+
+
+class IdObj:
+
+    def __init__(self, lid, tag):
+        self.odx_id = OdxLinkId(lid, FR)
+        self.short_name = lid
+        self.tag = tag
+
+    def _build_odxlinks(self):
+        return {self.odx_id: self}
+
+
+@harness(props=["C15", "C10"], strength="B", family=lambda t, s: [{"what": w} for w in ("comparam", "complex-comparam")],
+         bound="one subset with one simple and one complex comparam; one of them is replaced between two calls",
+         functions=[ComparamSubset._build_odxlinks], covers=["done"], crosscheck=False)
+def subset_links_follow_its_content(what):
+    """ComparamSubset._build_odxlinks(): maps the ids to the objects the subset holds at the time of the call (a second
+    refresh after a specification was replaced binds the references to the new specification and its defaults)"""
+    sub = ComparamSubset.__new__(ComparamSubset)
+    sub.odx_id = OdxLinkId("subset", FR)
+    sub.short_name = "subset"
+    sub.admin_data = None
+    sub.company_datas = NamedItemList()
+    sub.sdgs = []
+    sub.data_object_props = NamedItemList()
+    sub.unit_spec = None
+    old_cp, new_cp = IdObj("CP_X", "old"), IdObj("CP_X", "new")
+    old_ccp, new_ccp = IdObj("CCP_Y", "old"), IdObj("CCP_Y", "new")
+    sub.comparams = NamedItemList([old_cp])
+    sub.complex_comparams = NamedItemList([old_ccp])
+    first = sub._build_odxlinks()
+    if what == "comparam":
+        sub.comparams = NamedItemList([new_cp])
+    else:
+        sub.complex_comparams = NamedItemList([new_ccp])
+    second = sub._build_odxlinks()
+    H.cover("done")
+    H.check("C15,C10:ids-are-bound-to-the-objects-the-subset-holds-at-that-time",
+            H.And(first[OdxLinkId("CP_X", FR)] is old_cp, first[OdxLinkId("CCP_Y", FR)] is old_ccp,
+                  second[OdxLinkId("CP_X", FR)] is (new_cp if what == "comparam" else old_cp),
+                  second[OdxLinkId("CCP_Y", FR)] is (old_ccp if what == "comparam" else new_ccp)))
